@@ -602,3 +602,38 @@ Print Assumptions C05_vol32_stats_exact.
 Print Assumptions C05_vol32_flush_fs_info.
 Print Assumptions C05_vol32_session_premises.
 Print Assumptions C05_vol32_observation_fsinfo_sector_zero.
+
+(* ==================================================================================================================
+   THE DIRECTORY ALLOCATION ON WHOLE IMAGES (Model/VolDirTree.v vol_alloc_new_cluster = FileSystem::alloc_cluster(None, zero = true),
+   the call create_dir makes).  PROVED IN GENERAL: exactly one cluster, free before, end-of-chain after; no other FAT entry changes;
+   bytes change only in the FAT copies and in that cluster, which is zero afterwards; count_free drops by exactly one; the latch stays
+   consistent with the table; the only failure is NotEnoughSpace on a table without a free entry (no panic, fuel suffices). *)
+From FatVerif Require Import Model.VolDirTree Proofs.VolDirTreeProofs Proofs.VolDirTreeExamples.
+
+Theorem C05_vol_alloc_new_cluster_accounting : forall g, fixed_root_geom g -> forall im fi,
+  FatProofs.bytes_ok im -> fi_inv fstore (val_ft (ft_of g)) (store_of g im) fi (g_clusters g) ->
+  match vol_alloc_new_cluster g im fi with
+  | Ok (im1, fi1, c) =>
+    2 <= c < g_clusters g + 2 /\ fat_val g im c = FFree /\ fat_val g im1 c = FEoc /\
+    (forall x, 2 <= x < g_clusters g + 2 -> x <> c -> fat_val g im1 x = fat_val g im x) /\
+    (forall a, ~ in_store_area g a -> ~ in_cluster g c a -> img_get im1 a = img_get im a) /\
+    cluster_bytes g im1 c = repeat_N 0 (N.to_nat (g_cluster_size g)) /\
+    FatProofs.bytes_ok im1 /\ fi_inv fstore (val_ft (ft_of g)) (store_of g im1) fi1 (g_clusters g) /\
+    Abs.count_free g im1 + 1 = Abs.count_free g im
+  | Err e => e = ENotEnoughSpace /\ (forall x, 2 <= x < g_clusters g + 2 -> fat_val g im x <> FFree)
+  | Panic => False
+  | OutOfFuel => False
+  end.
+Proof. exact vol_alloc_new_cluster_spec. Qed.
+
+(* NOT PROVED IN GENERAL (C05_vol_dir_accounting: created -> Abs.count_free g im' + 1 = Abs.count_free g im; removed an empty directory with
+   chain l -> Abs.count_free g im' = Abs.count_free g im + length l; missing: the frame of the three entry writes against the FAT copies,
+   which VolDirProofs.put_root_slots_changes / VolChainDirProofs.put_chain_slots_changes provide byte-wise).  PROVED on the concrete
+   volume: 60 -> 59 with the directory, no issue before or after (and 60 again after remove: C01_vol_create_then_remove_dir_partial) *)
+Theorem C05_vol_dir_accounting_partial :
+  Abs.count_free ex_g ex_vol_im = 60 /\ Abs.count_free ex_g ex_mk_im = 59 /\
+  Wf.wf_issues (fun l => l) ex_vol_im = [] /\ Wf.wf_issues (fun l => l) ex_mk_im = [].
+Proof. exact ex_mkdir_accounting. Qed.
+
+Print Assumptions C05_vol_alloc_new_cluster_accounting.
+Print Assumptions C05_vol_dir_accounting_partial.
